@@ -6,6 +6,8 @@ LEAN_MODULE = "Tulisp.Props.C18"
 THEOREMS = []
 PROFILES = ["release", "dev"]
 ENV = {"HARNESS_STACK_KIB": "512", "VERIF_STALL": "400"}
+PAR_MIN = 0          # few, heavy requests: always run in parallel chunks
+JOBS = {"quick": 8, "thorough": 8}
 RULE = ("every list-consuming operation (build by tail recursion and by list/mapcar/backquote, length, nth, nthcdr, last, "
         "copy, append, equal on equal and on differing lists, printing, an error message about the list, mapcar, seq-map, "
         "seq-filter, seq-reduce, seq-find, sort, assoc, alist-get, plist-get, backquote splice, dolist, discarding) on "
@@ -54,7 +56,16 @@ def ops(n):
         ("discard-nested-ctx", ["(setq rec (list 'name (list 'inner (build %d nil))))" % n], "'kept", "OK y:kept"),
         ("discard-arg", ["(defun drop2 (a b) 'dropped)"], "(drop2 (list 0 (build %d nil)) (cons 1 (cons 2 (build %d nil))))" % (n, n), "OK y:dropped"),
         ("discard-ctx", ["(setq big (build %d nil))" % n], "'kept", "OK y:kept"),
+        # lists whose elements hold (part of) the rest of the list: every cell's cdr has a second owner, the cell's own car
+        ("length-selfshare", [SHARE, "(progn (setq sh (share1 (build %d nil) nil)) 'built)" % n], "(length sh)", "OK %d" % n),
+        ("discard-selfshare", [SHARE, "(progn (setq sh (share1 (build %d nil) nil)) 'built)" % n], "(progn (setq sh nil) 'gone)", "OK y:gone"),
+        ("discard-tails-alist", [SHARE, "(progn (setq sh (share2 (build %d nil) nil)) 'built)" % n], "(progn (setq sh nil) 'gone)", "OK y:gone"),
+        ("discard-tails-records", [SHARE, "(progn (setq sh (share3 (build %d nil) nil)) 'built)" % n], "(progn (setq sh 1) 'gone)", "OK y:gone"),
     ]
+
+SHARE = ("(progn (defun share1 (l acc) (if (null l) acc (share1 (cdr l) (cons acc acc)))) "
+         "(defun share2 (l acc) (if (null l) acc (share2 (cdr l) (cons (cons (car l) acc) acc)))) "
+         "(defun share3 (l acc) (if (null l) acc (share3 (cdr l) (cons (list (car l) acc 'x) acc)))) 'defined)")
 
 def quad_ops(n):
     h = n // 2
